@@ -1,5 +1,7 @@
 import SelfiesVerif.Model.Decoder
 import SelfiesVerif.Model.Encoder
+import SelfiesVerif.Model.Encoding
+import SelfiesVerif.Model.Config
 
 namespace SV.Driver
 open SV
@@ -90,8 +92,69 @@ def encTok (t : SmilesTok) : String :=
   let k := match t.kind with | .atom => "A" | .branch => "B" | .ring => "R" | .dot => "D"
   s!"{k}{encOptChar t.bondChar}{encStr t.text}"
 
+def decPyKey (s : String) : PyKey := if s == "O" then .other else .str (decStr s)
+def decPyVal (s : String) : PyVal :=
+  if s == "O" then .other
+  else if s == "bT" then .bool true
+  else if s == "bF" then .bool false
+  else .int (s.drop 1).toString.toInt!
+
+/-- `k=v;k=v` with PyKey / PyVal wire forms -/
+def decPyDict (s : String) : PyDict :=
+  if s.isEmpty || s == "-" then [] else
+  (s.splitOn ";").filterMap fun kv =>
+    match kv.splitOn "=" with
+    | [k, v] => some (decPyKey k, decPyVal v)
+    | _ => none
+
+def encPyKey : PyKey → String
+  | .str s => encStr s
+  | .other => "O"
+
+def encPyDict (d : PyDict) : String :=
+  ";".intercalate (d.map fun (k, v) => s!"{encPyKey k}={v.toNat}")
+
+def decEncType (s : String) : EncType :=
+  if s == "label" then .label else if s == "one_hot" then .oneHot else if s == "both" then .both else .other
+
+def decVocabStoi (s : String) : VocabStoi :=
+  if s.isEmpty || s == "-" then [] else
+  (s.splitOn ";").filterMap fun kv =>
+    match kv.splitOn "=" with
+    | [k, v] => some (decStr k, v.toInt!)
+    | _ => none
+
+def decVocabItos (s : String) : VocabItos :=
+  if s.isEmpty || s == "-" then [] else
+  (s.splitOn ";").filterMap fun kv =>
+    match kv.splitOn "=" with
+    | [k, v] => some (k.toInt!, decStr v)
+    | _ => none
+
+def decIntList (s : String) : List Int :=
+  if s.isEmpty || s == "-" then [] else (s.splitOn ",").map String.toInt!
+
+def decIntRows (s : String) : List (List Int) :=
+  if s == "-" then [] else (s.splitOn ";").map decIntList
+
+def encEncoded (e : Encoded) : String :=
+  let l := match e.label with | none => "N" | some l => ",".intercalate (l.map toString)
+  let h := match e.oneHot with
+    | none => "N"
+    | some rows => ";".intercalate (rows.map fun (r : List Nat) => ",".intercalate (r.map toString))
+  s!"{l}\t{h}"
+
 structure St where
   table : Table := (Table.ofDict Gen.initialConstraints).getD { entries := [], dflt := 0 }
+  cfg : CfgState := CfgState.init
+  handles : List (Nat × Nat) := []
+
+def St.sync (st : St) : St :=
+  match Table.ofDict st.cfg.currentTable with
+  | some t => { st with table := t }
+  | none => st
+
+def St.ref (st : St) (h : String) : Nat := (lookup h.toNat! st.handles).getD 0
 
 def handle (st : St) (fields : List String) : St × String :=
   match fields with
@@ -123,6 +186,48 @@ def handle (st : St) (fields : List String) : St × String :=
       | some l => "ok\t" ++ " ".intercalate (l.map encTok))
   | ["pm", g, tape] => (st, encPy encMatching (findPerfectMatching (decGraph g) (decNatList tape)))
   | ["greedy", g] => (st, encPy (fun m => encMatching (some m)) (greedyMatching (decGraph g)))
+  | ["c.reset"] => ({ st with cfg := CfgState.init, handles := [] }.sync, "ok")
+  | ["c.preset", name, h] =>
+    let (cfg, r) := getPreset st.cfg (decStr name)
+    match r with
+    | .ok ref => ({ st with cfg := cfg, handles := (h.toNat!, ref) :: st.handles }, "ok")
+    | .error e => ({ st with cfg := cfg }, "err\t" ++ e.name)
+  | ["c.get", h] =>
+    let (cfg, ref) := getConstraints st.cfg
+    ({ st with cfg := cfg, handles := (h.toNat!, ref) :: st.handles }, "ok")
+  | ["c.alpha", h] =>
+    let (cfg, ref) := getAlphabet st.cfg
+    ({ st with cfg := cfg, handles := (h.toNat!, ref) :: st.handles }, "ok")
+  | ["c.newdict", h, d] =>
+    let (cfg, ref) := st.cfg.allocDict (decPyDict d)
+    ({ st with cfg := cfg, handles := (h.toNat!, ref) :: st.handles }, "ok")
+  | ["c.set", "name", n] =>
+    let (cfg, r) := setConstraints st.cfg (.name (decStr n))
+    ({ st with cfg := cfg }.sync, encPy (fun _ => "") r)
+  | ["c.set", "dict", h] =>
+    let (cfg, r) := setConstraints st.cfg (.dict (st.ref h))
+    ({ st with cfg := cfg }.sync, encPy (fun _ => "") r)
+  | ["c.set", "other"] =>
+    let (cfg, r) := setConstraints st.cfg .other
+    ({ st with cfg := cfg }.sync, encPy (fun _ => "") r)
+  | ["c.mutd", h, k, v] =>
+    ({ st with cfg := mutateDict st.cfg (st.ref h) (decPyKey k) (decPyVal v) }.sync, "ok")
+  | ["c.muts", h, x] =>
+    ({ st with cfg := mutateSet st.cfg (st.ref h) (decStr x) }, "ok")
+  | ["c.readd", h] => (st, "ok\t" ++ encPyDict (st.cfg.dictOf (st.ref h)))
+  | ["c.reads", h] =>
+    (st, "ok\t" ++ " ".intercalate (((lookup (st.ref h) st.cfg.sets).getD []).map encStr))
+  | ["alphabet"] => (st, "ok\t" ++ " ".intercalate ((robustAlphabet st.table.entries).map encStr))
+  | ["validkey", k] => (st, s!"ok\t{validKey (decStr k)}")
+  | ["s2e", s, vocab, pad, et] =>
+    (st, encPy encEncoded (selfiesToEncoding (decStr s) (decVocabStoi vocab) pad.toInt! (decEncType et)))
+  | ["l2s", labels, vocab] => (st, encPy encStr (labelToSelfies (decIntList labels) (decVocabItos vocab)))
+  | ["h2s", rows, vocab] => (st, encPy encStr (oneHotToSelfies (decIntRows rows) (decVocabItos vocab)))
+  | "bs2f" :: vocab :: pad :: batch =>
+    (st, encPy (fun (rows : List (List Nat)) => ";".intercalate (rows.map fun r => ",".intercalate (r.map toString)))
+      (batchSelfiesToFlatHot (batch.map decStr) (decVocabStoi vocab) pad.toInt!))
+  | ["bf2s", rows, vocab] =>
+    (st, encPy (fun (l : List Str) => " ".intercalate (l.map encStr)) (batchFlatHotToSelfies (decIntRows rows) (decVocabItos vocab)))
   | ["split", s] =>
     let (items, bad) := splitSelfies (decStr s)
     (st, (if bad then "err\tValueError\t" else "ok\t") ++ " ".intercalate (items.map encStr))
